@@ -52,7 +52,7 @@ Theorem spock_verify_iff sk1 sk2 b1 b2 :
   (sk1 <> f0 /\ sk2 <> f0 /\
    exists s1 s2, b1 = enc1 (s1, t1_0) /\ b2 = enc1 (s2, t1_0) /\ fmul s1 sk2 = fmul s2 sk1).
 Proof.
-  unfold spock_verify, keyof, public_key, mk_pubkey. cbn [pk_is_identity pk_point].
+  unfold spock_verify, keyof. rewrite !public_key_eq. unfold mk_pubkey. cbn [pk_is_identity pk_point].
   rewrite !is_O2_pk. split.
   - destruct (Nat.eqb (List.length b1) _) eqn:L1; cbn [negb orb]; [|discriminate].
     destruct (Nat.eqb (List.length b2) _) eqn:L2; cbn [negb orb]; [|discriminate].
